@@ -22,8 +22,8 @@ RULE = ("case = (RPDO/TPDO, PDO number in {1..4, 5, 64, 511, 512}, COB-ID over 1
         "DefaultValue)); the device starts enabled with a different mapping and refuses out-of-order writes. Signature = "
         "(kind, number class, cob class, enabled, rtr, trans class, n mapped, optional subs, source); non-trivial = at least "
         "one mapped object or enabled.")
-ASSUMPTIONS = ["devices with a read-only mapping count (the library's _fill_map workaround) are outside the property",
-               "bit 29 (frame format) of the COB-ID entry is not judged", "optional timers are compared for transmission types 254/255 only"]
+ASSUMPTIONS = ["devices with a permanently read-only mapping count (the library's _fill_map workaround) are outside the property; a transient refusal before the judged save is part of 'every prior state of the device'",
+               "bit 29 (frame format) written by the library is not judged; a device or dictionary reporting it must still read back as the same 29-bit COB-ID", "optional timers are compared for transmission types 254/255 only"]
 REQUIRED = {"saves_checked": 200, "readbacks_compared": 200, "device_writes_logged": 1000}
 NODE = 9
 PDO_NOT_VALID, RTR_NOT_ALLOWED = 1 << 31, 1 << 30
@@ -62,7 +62,10 @@ def gen_case(rng):
          "inhibit": rng.choice([None, 0, 100, 65535]) if 3 in subs else None,
          "event": rng.choice([None, 0, 500, 65535]) if 5 in subs else None,
          "sync_start": rng.choice([None, 0, 7, 240]) if 6 in subs else None,
-         "old_mapping": random_mapping(rng, rng.randint(1, 4)), "old_cob": rng.randint(1, 0x7FF), "seed": rng.randint(0, 1 << 30)}
+         "old_mapping": random_mapping(rng, rng.randint(1, 4)), "old_cob": rng.randint(1, 0x7FF), "seed": rng.randint(0, 1 << 30),
+         "map_as_array": rng.random() < 0.3,           # some EDS files declare the mapping parameter as ARRAY (object type 8)
+         "failed_first_save": rng.random() < 0.2,      # the device refused re-mapping once (transient state) before the judged save
+         "frame_bit": rng.random() < 0.5}              # a compliant device reports bit 29 ("frame") for 29-bit COB-IDs
     return c
 
 
@@ -71,11 +74,13 @@ def build_od(c, with_values=False):
     defaults = {}
     com = (0x1400 if c["kind"] == "rpdo" else 0x1800) + c["number"] - 1
     mp = (0x1600 if c["kind"] == "rpdo" else 0x1A00) + c["number"] - 1
-    gen.add_pdo_objects(d, c["kind"], c["number"], subs=tuple(c["subs"]))
+    gen.add_pdo_objects(d, c["kind"], c["number"], subs=tuple(c["subs"]), map_as_array=c.get("map_as_array", False))
     if with_values:
         # configuration described by the dictionary: some entries as DefaultValue, some as ParameterValue
         rng = random.Random(c["seed"])
         word = c["cob"] | (0 if c["enabled"] else PDO_NOT_VALID) | (0 if c["rtr"] else RTR_NOT_ALLOWED)
+        if c["cob"] > 0x7FF and c.get("frame_bit"):
+            word |= 1 << 29
         vals = {(com, 1): word, (com, 2): c["trans"], (mp, 0): len(c["mapping"])}
         for s, key in ((3, "inhibit"), (5, "event"), (6, "sync_start")):
             if s in c["subs"]:
@@ -107,13 +112,16 @@ def run_case(ctx, c):
     # the device starts enabled with a different mapping (for source 'device' it holds the configuration itself)
     if c["source"] == "device":
         word = c["cob"] | (0 if c["enabled"] else PDO_NOT_VALID) | (0 if c["rtr"] else RTR_NOT_ALLOWED)
+        if c["cob"] > 0x7FF and c.get("frame_bit"):
+            word |= 1 << 29
         dev.add_pdo(com, mp, word, c["trans"], tuple(c["subs"]), c["mapping"], c["inhibit"] or 0, c["event"] or 0, c["sync_start"] or 0)
     else:
         dev.add_pdo(com, mp, c["old_cob"], 255, tuple(c["subs"]), c["old_mapping"], 1, 2, 3)
     bus.actor_station("refserver", ServerActor(dev, 0x600 + NODE, 0x580 + NODE))
     pmap = (node.rpdo if c["kind"] == "rpdo" else node.tpdo)[c["number"]]
     sig = (c["kind"], "pcs" if c["number"] <= 4 else "high", "ext" if c["cob"] > 0x7FF else "std", c["enabled"], c["rtr"],
-           "event" if c["trans"] >= 254 else "sync" if c["trans"] <= 240 else "rtr/reserved", len(c["mapping"]), tuple(c["subs"][2:]), c["source"])
+           "event" if c["trans"] >= 254 else "sync" if c["trans"] <= 240 else "rtr/reserved", len(c["mapping"]), tuple(c["subs"][2:]), c["source"],
+           c.get("map_as_array"), c.get("failed_first_save"))
     ctx.case(sig, nontrivial=bool(c["mapping"]) or c["enabled"])
     trace = lambda: [f.brief() for f in list(bus.log)[-60:]]  # noqa: E731
     try:
@@ -127,6 +135,20 @@ def run_case(ctx, c):
             pmap.read()
         elif c["source"] == "od":
             pmap.read(from_od=True)
+        if c.get("failed_first_save") and c["source"] in ("programmatic", "od") and dev.count(mp) <= len(pmap.map):
+            # (with more objects mapped in the device than in the new mapping the library's fixed-length workaround pads
+            # the map object itself with dummy entries: that is the workaround's documented effect, outside the property)
+            # an earlier attempt on the same map object while the device refused re-mapping; not judged, then the device is as before
+            snap = dict(dev.store)
+            dev.locked = True
+            try:
+                pmap.save()
+            except Exception:  # noqa: BLE001
+                pass
+            dev.locked = False
+            ctx.count("save_after_refused_save")
+            dev.store.clear()
+            dev.store.update(snap)
         nlog = len(dev.write_log)
         if c["source"] == "load_configuration":
             # the documented way to apply a DCF: PDO objects go through read(from_od=True) + save(), nothing else may touch them
